@@ -106,6 +106,13 @@ fn main() {
                 sched_assumptions,
             )
         }
+        "C13" => {
+            parts.push(make_part("sched-pauses", "SCHED", cli.cases(6_000, 300_000), convsched::c13_pause_strategy, |_| (), |_, c| convsched::c13_pause_test(c)));
+            (
+                "part sched-pauses: the C01 pipelines (2-5 requests, handlers on their own tasks answering through respond / raw writer / drop) run twice over the real ClientConnection under the controlled scheduler: once with the whole client stream and the half-close in place before the server starts, once sent by a client task with generated pauses (0 / 1 / 50 / 400 ms of virtual time) between the segments and before the half-close, each under its own schedule tape; oracle (metamorphic): the delivered requests and the response stream (Date blanked) and its end are the same",
+                sched_assumptions,
+            )
+        }
         "C20" => {
             parts.push(make_part("sched-server", "SCHED", cli.cases(3_000, 200_000), || server::server_strategy(10, true), |_| (), |_, c| server::run_server_case("C20", c)));
             (
